@@ -29,7 +29,7 @@ func init() {
 		Assumptions: []string{"root", "selectors select the link source of every hard link they select", "a directory named .fsutil-metadata in the source is empty"},
 		Cases: func(tier string) int {
 			if tier == "thorough" {
-				return 15000
+				return 100000
 			}
 			return 1000
 		},
